@@ -225,3 +225,64 @@ def build_cfg(prods, v, start="S", vars_=VARS, terms=TERMS, order=None, as_list=
             coll.add(p)
         ps = coll
     return CFG(start_symbol=Variable(start) if start is not None else None, productions=ps)
+
+
+# ----------------------------------------------------------------------------------------
+# pushdown automata
+
+PDA_STACK = ["Z", "X"]
+PDA_PUSHES = [(), (0,), (1,), (1, 0), (1, 1, 0), (0, 1)]      # indices into the stack alphabet, top first
+
+
+def decode_pda(t, m_used, n, k, npush=len(PDA_PUSHES)):
+    """t: flat tuple, 5 ints per transition (from, input 0=eps 1..k, pop 0/1, to, push code)."""
+    maxm = len(t) // 5
+    m = pick(m_used, maxm + 1)
+    out = []
+    for i in range(m):
+        b = 5 * i
+        out.append((pick(t[b], n), pick(t[b + 1], k + 1), pick(t[b + 2], 2), pick(t[b + 3], n),
+                    pick(t[b + 4], npush)))
+    return out
+
+
+def pda_canonical(t, m_used, n, k, npush=len(PDA_PUSHES)):
+    maxm = len(t) // 5
+    ok = True
+    for i in range(maxm):
+        b = 5 * i
+        ok = ok and 0 <= t[b] < n and 0 <= t[b + 1] <= k and 0 <= t[b + 2] < 2 and 0 <= t[b + 3] < n \
+            and 0 <= t[b + 4] < npush
+        if not (i < m_used):
+            ok = ok and t[b] == 0 and t[b + 1] == 0 and t[b + 2] == 0 and t[b + 3] == 0 and t[b + 4] == 0
+        if i + 1 < maxm and (i + 1) < m_used:
+            ok = ok and lex_less(t[b:b + 5], t[b + 5:b + 10])
+    return ok
+
+
+def pda_spec(trans, finals, states=(0, 1), stack=PDA_STACK, syms=SYMS, start=0, start_stack=0):
+    """-> plain (states, start, start_stack, finals, transitions) with labels applied."""
+    tr = []
+    for (p, a, X, q, pc) in trans:
+        tr.append((states[p], None if a == 0 else syms[a - 1], stack[X], states[q],
+                   tuple(stack[i] for i in PDA_PUSHES[pc])))
+    return (list(states), states[start], stack[start_stack], [states[f] for f in finals], tr)
+
+
+def build_pda(spec):
+    from pyformlang.pda import PDA
+    states, start, start_stack, finals, tr = spec
+    pda = PDA()
+    pda.set_start_state(start)
+    pda.set_start_stack_symbol(start_stack)
+    for f in finals:
+        pda.add_final_state(f)
+    for (p, a, X, q, push) in tr:
+        pda.add_transition(p, "epsilon" if a is None else a, X, q, list(push))
+    return pda
+
+
+def ref_pda(spec):
+    from vlib.oracles import pda as OP
+    states, start, start_stack, finals, tr = spec
+    return OP.RefPDA([start], start, start_stack, finals, tr)
